@@ -307,6 +307,39 @@ def single_worker_jobs(rng, tier, add):
                 add(norm(p), mode_mix(rng, 0.5))
 
 
+def big_find_jobs(rng, tier, add):
+    # finds over 10^5 elements with chunks in the thousands: a late single match, matches in several chunks
+    for i in range(8 if tier == "quick" else 48):
+        src = rng.choice(("vec", "range", "iter", "iterx"))
+        sh = rng.choice(["", "m", "f"]) if src != "range" else ""
+        p = gen_prog(rng, src=src, shape=sh, n=8, nt=rng.choice([2, 4, 8]),
+                     cs=rng.choice([("cs", 2048), ("cs", 4096), ("csmin", 1500), ("cs", 10000)]))
+        c_ = [o["v"] for o in p["ops"] if o["k"] in ("cs", "csmin")][0]
+        if i % 2 == 0:
+            # periodic input: matches everywhere
+            p["n"] = rng.choice([30000, 70000])
+            p["term"] = {"k": rng.choice(["find", "any", "find", "first"]), "t": pred_table(rng)}
+        else:
+            # explicit input with exactly two matching elements: the first deep inside the first chunk,
+            # the second right at the start of a later chunk (which is therefore found earlier in time)
+            p["term"] = {"k": rng.choice(["find", "any", "find_idx" if idx_ok(src, sh) else "find"]), "t": pred_table(rng)}
+            want = [x for x in range(V) if p["term"]["t"][x]]
+
+            def yields(x):
+                _, outs = py_calls(norm(dict(p, input=[x])))
+                return any(o[1] in want for o in outs)
+            bad = [x for x in range(V) if yields(x)]
+            good = [x for x in range(V) if x not in bad]
+            if bad and good:
+                nn = 5 * c_ if c_ <= 4096 else 3 * c_
+                p["input"] = [rng.choice(good) for _ in range(nn)]
+                p["input"][rng.randrange(c_ // 2 + 1100 if c_ > 2400 else c_ // 2, c_ - 1)] = rng.choice(bad)
+                p["input"][rng.choice([1, 2]) * c_ + rng.randrange(0, 20)] = rng.choice(bad)
+            else:
+                p["n"] = 30000
+        add(norm(p), "free", logcalls=0, timeout_ms=180000)
+
+
 def jobs_for(prop, tier, seed):
     rng = random.Random(seed * 1000003 + int(prop[1:]))
     n = {"quick": 160, "thorough": 1600}[tier]
@@ -326,6 +359,7 @@ def jobs_for(prop, tier, seed):
         for _ in range(n):
             add(with_term(rng, lambda r, s, sh: collect_term(r, s, sh)))
     elif prop == "C02":
+        big_find_jobs(rng, tier, add)
         slow_source_jobs(rng, tier, [find_term], add)
         lag_jobs(rng, tier, [find_term], add)
         matrix(rng, tier, [find_term], add, reps=3)
@@ -490,6 +524,7 @@ def jobs_for(prop, tier, seed):
                 continue
             add(p)
     elif prop == "C15":
+        big_find_jobs(rng, tier, add)
         slow_source_jobs(rng, tier, [lambda r, s_, sh: any_term(r, s_, sh)], add)
         lag_jobs(rng, tier, [lambda r, s_, sh: any_term(r, s_, sh)], add)
         capacity_sweep(rng, tier, add, 30)
@@ -523,6 +558,7 @@ def jobs_for(prop, tier, seed):
     elif prop == "C16":
         # sequences of setters (the terminal must run under the LAST values set, whatever was set before)
         seqs = [[("nt", a), (ck, b), ("nt", c)] for a in (1, 2, 3) for ck in ("cs", "csmin") for b in (1, 2, 3) for c in (1, 2, 3)] + \
+               [[(ck, b), ("nt", 1), ("nt", c)] for ck in ("cs", "csmin") for b in (1, 2, 3, 5) for c in (2, 3, 4)] + \
                [[(ck, b), ("nt", a), (ck2, b2)] for a in (1, 2) for ck in ("cs", "csmin") for b in (1, 3) for ck2 in ("cs", "csmin") for b2 in (0, 2)]
         rng.shuffle(seqs)
         for sq in seqs[:(60 if tier == "quick" else len(seqs))]:
